@@ -15,6 +15,8 @@ import (
 	"sort"
 	"strings"
 
+	"go/build"
+	"io"
 	"verif/harness/internal/proto"
 )
 
@@ -32,9 +34,10 @@ func init() { protos["tg"] = protoImpl{gen: tgGen, run: tgRun} }
 var testNameRe = regexp.MustCompile(`^(failing_)?test[A-Za-z0-9]+$`)
 
 type tgFile struct {
-	name    string
-	dir     bool
-	content string
+	name     string
+	dir      bool
+	content  string
+	excluded bool // the generator made it a file that build constraints keep out of the package (kind "x" on the wire)
 }
 
 func encodeCase(mode string, files []tgFile) string {
@@ -44,6 +47,8 @@ func encodeCase(mode string, files []tgFile) string {
 		k := "f"
 		if f.dir {
 			k = "d"
+		} else if f.excluded {
+			k = "x"
 		}
 		fmt.Fprintf(&b, " %s %s %s", proto.Hex([]byte(f.name)), k, proto.Hex([]byte(f.content)))
 	}
@@ -61,7 +66,7 @@ func decodeCase(w []string) (string, []tgFile, bool) {
 		if e1 != nil || e2 != nil {
 			return "", nil, false
 		}
-		files = append(files, tgFile{string(n), w[i+1] == "d", string(c)})
+		files = append(files, tgFile{string(n), w[i+1] == "d", string(c), w[i+1] == "x"})
 	}
 	return w[1], files, true
 }
@@ -184,6 +189,24 @@ func tgGen(seed uint64, tier string) {
 		if r.Intn(5) == 0 {
 			files = append(files, tgFile{name: "notes.txt", content: "func testInNotes() bool {\nnot Go at all\n"})
 		}
+		// … and files that build constraints keep out of the package: never compiled, compiled on another system only, or
+		// part of only one of the two views of the package (goose translates with the tag `goose`, `go test` runs without it)
+		if r.Intn(4) == 0 {
+			files = append(files, tgFile{name: "ignored.go", excluded: true, content: "//go:build ignore\n\npackage semantics\n\nfunc testIgnored() bool {\n\treturn true\n}\n"})
+		}
+		if r.Intn(5) == 0 {
+			files = append(files, tgFile{name: "paths_windows.go", excluded: true, content: "package semantics\n\nfunc testWin() bool {\n\treturn true\n}\n"})
+		}
+		if r.Intn(5) == 0 {
+			files = append(files, tgFile{name: "onlygoose.go", excluded: true, content: "//go:build goose\n\npackage semantics\n\nfunc failing_testOnlyGoose() bool {\n\treturn false\n}\n"})
+		}
+		if r.Intn(5) == 0 {
+			files = append(files, tgFile{name: "nogoose.go", excluded: true, content: "//go:build !goose\n\npackage semantics\n\nfunc testNoGoose() bool {\n\treturn true\n}\n"})
+		}
+		if r.Intn(5) == 0 {
+			// (a constraint that holds in both views: an ordinary file of the package)
+			files = append(files, tgFile{name: "linuxorany.go", content: "//go:build linux || !linux\n\npackage semantics\n\nfunc testEverywhere() bool {\n\treturn true\n}\n"})
+		}
 		sort.Slice(files, func(a, b int) bool { return files[a].name < files[b].name })
 		proto.Reply("%s", encodeCase("go", files))
 		proto.Reply("%s", encodeCase("coq", files))
@@ -220,6 +243,9 @@ func specTests(files []tgFile) []string {
 		if !strings.HasSuffix(f.name, ".go") || strings.HasPrefix(f.name, "_") || strings.HasPrefix(f.name, ".") {
 			continue // not part of the package as the Go toolchain sees it
 		}
+		if !inBothViews(f) {
+			continue // build constraints keep it out of the package goose translates, or out of the one `go test` compiles
+		}
 		fset := token.NewFileSet()
 		af, err := parser.ParseFile(fset, f.name, f.content, 0)
 		if err != nil {
@@ -236,6 +262,23 @@ func specTests(files []tgFile) []string {
 		}
 	}
 	return out
+}
+
+// inBothViews asks go/build (an in-memory file system holding just this file) whether the file belongs to the package with and
+// without the build tag `goose`.
+func inBothViews(f tgFile) bool {
+	for _, tags := range [][]string{nil, {"goose"}} {
+		ctxt := build.Default
+		ctxt.BuildTags = tags
+		ctxt.OpenFile = func(path string) (io.ReadCloser, error) {
+			return io.NopCloser(strings.NewReader(f.content)), nil
+		}
+		ok, err := ctxt.MatchFile("/virtual", f.name)
+		if err != nil || !ok {
+			return false
+		}
+	}
+	return true
 }
 
 func tgRun(lines []string) {
